@@ -63,6 +63,7 @@ type Contract struct {
 	Modifies []string
 	Loops    map[int]*LoopSpec
 	Trusted  bool
+	RecBound *Clause // must hold for the arguments of every recursive call (bounds the recursion depth)
 	Enumerate []string
 	Inline   bool
 	NoSafety bool
@@ -135,7 +136,7 @@ func parseContractFile(P *Program, pkg *packages.Package, f *ast.File, name stri
 					return fail(fmt.Errorf("duplicate contract %s", cur.Key))
 				}
 				P.Contracts[cur.Key] = cur
-			case "requires", "ensures", "decreases", "ghostensures":
+			case "requires", "ensures", "decreases", "ghostensures", "recbound":
 				if cur == nil {
 					return fail(fmt.Errorf("clause outside contract"))
 				}
@@ -150,6 +151,8 @@ func parseContractFile(P *Program, pkg *packages.Package, f *ast.File, name stri
 					cur.Ensures = append(cur.Ensures, cl)
 				case "ghostensures":
 					cur.GhostEnsures = append(cur.GhostEnsures, cl)
+				case "recbound":
+					cur.RecBound = &cl
 				case "decreases":
 					cur.Decr = &cl
 				}
